@@ -231,4 +231,10 @@ def r1_12(ctx):
                   f"`{short(c)}`: the caller's `{norm(bad[0]) if bad else ''}` reaches the render options without min(.., self.width): everything rendered by this print - including the live frame appended by the render hook, whose control segments are never cropped - is laid out wider than the terminal")
 
 
-RULES = [r1_1, r1_2, r1_3, r1_4, r1_5, r1_6, r1_7, r1_8, r1_9, r1_10, r1_11, r1_12]
+def r1_13(ctx):
+    from .c13 import r13_5
+    from .common import borrow
+    borrow(ctx, r13_5, "R13.5", "R1.13", " [every line a console writes was cropped to the width by Segment.adjust_line_length: the crop must end the line, and pad / crop amounts are measured against the requested length]")
+
+
+RULES = [r1_1, r1_2, r1_3, r1_4, r1_5, r1_6, r1_7, r1_8, r1_9, r1_10, r1_11, r1_12, r1_13]
